@@ -7,6 +7,7 @@
 //verif:pkg signature/jws
 //verif:include jws_env.go
 //verif:harness H_C07_jws_content
+//verif:harness H_C07_jws_content_fold
 package jws
 
 import (
@@ -44,6 +45,47 @@ func H_C07_jws_content() {
 	e := &base.Envelope{Envelope: &envelope{base: env}, Raw: raw}
 	c, err := e.Content()
 	checkContentJWS(env, c, err)
+}
+
+// the same with one member of the protected header whose key differs from a specified key only in letter case
+func H_C07_jws_content_fold() {
+	foldModel = true
+	extrasMax = rt.Bound("fold_further_headers_max", 1, 2)
+	H_C07_jws_content()
+}
+
+// readFromOwnKey: with a case variant that the struct view reports, does the view nevertheless show what the
+// exactly-keyed member says (so that no reader could tell)?
+func readFromOwnKey(h *jwsProtectedHeader) bool {
+	timeSame := func(p *time.Time) bool {
+		if !exactPresent {
+			return p == nil
+		}
+		return p != nil && exactTime != nil && p.Equal(*exactTime)
+	}
+	textSame := func(s string) bool {
+		if !exactPresent {
+			return len(s) == 0
+		}
+		return rt.StrEq(s, exactText)
+	}
+	switch specKeys[foldIdx] {
+	case "alg":
+		return textSame(h.Algorithm)
+	case "cty":
+		return textSame(h.ContentType)
+	case "io.cncf.notary.signingScheme":
+		return textSame(string(h.SigningScheme))
+	case "crit":
+		return !exactPresent && len(h.Critical) == 0 // lists are not compared: a crit list read from a variant is a deviation
+	case "io.cncf.notary.expiry":
+		return timeSame(h.Expiry)
+	case "io.cncf.notary.signingTime":
+		return timeSame(h.SigningTime)
+	case "io.cncf.notary.authenticSigningTime":
+		return timeSame(h.AuthenticSigningTime)
+	}
+	return false
 }
 
 func jwsAlgRow(a string) int {
@@ -88,6 +130,7 @@ func checkContentJWS(env *jwsEnvelope, c *signature.EnvelopeContent, err error) 
 	}
 	// rejected: one of the reasons of A.4 must be visible among what the code looked at, or the case is an open one
 	reason := rawLenJ == 0
+	reason = reason || foldIdx >= 0 // open: a key that differs from a specified key only in letter case may be refused
 	_, pOK := decodedOf(env.Protected)
 	for _, r := range b64Log { // any text that does not decode
 		reason = reason || r.err
@@ -190,6 +233,12 @@ func checkAcceptedJWS(env *jwsEnvelope, c *signature.EnvelopeContent) {
 	rt.Assert(structDecoded && !structErr && h != nil, "C07.jws.header.decoded")
 	if h == nil {
 		return
+	}
+	if foldIdx >= 0 && foldOverrides {
+		// a place that must be unreachable: accepted although a specified field shows what a case variant holds
+		if !readFromOwnKey(h) {
+			rt.Assert(false, "C07.jws.specified.header.read.only.from.its.own.key")
+		}
 	}
 	// decide everything the code did not look at
 	alg, cty, scheme, crit, exp, stX, stA := h.Algorithm, h.ContentType, h.SigningScheme, h.Critical, h.Expiry, h.SigningTime, h.AuthenticSigningTime
